@@ -718,7 +718,86 @@ Proof.
   assert (S : sum_disp (ldf_order k0 k1 k2 (x, y, z)) = to2d (x, y, z) /\
               sum_abs (ldf_order k0 k1 k2 (x, y, z)) = hops (x, y, z)).
   { destruct Hc as [-> | [-> | [-> | [-> | [-> | ->]]]]];
-      cbn [sum_disp sum_abs fst snd]; unfold ldf_delta, chip_add, to2d, hops; cbn [Z.eqb fst snd];
+      cbn [sum_disp sum_abs fst snd]; unfold ldf_delta, chip_add, to2d, hops; cbn [Z.eqb Pos.eqb fst snd Z.opp];
         (split; [f_equal|]; lia). }
   destruct S as [S1 S2]. rewrite S1 in D. rewrite S2 in L. split; [exact D | exact L].
+Qed.
+
+(* ================================================================================================
+   Links.from_vector on wrap-around steps (systems larger than 2 x 2, as its docstring requires) *)
+Lemma wrapped_component :
+  forall w x dx, 3 <= w -> 0 <= x < w -> -1 <= dx <= 1 ->
+    let a := (x + dx) mod w - x in
+    (if Z.abs a >? 1 then (if a >? 0 then - (1) else 1) else a) = dx.
+Proof.
+  intros w x dx Hw Hx Hd a.
+  assert (C : x + dx = -1 \/ x + dx = w \/ 0 <= x + dx < w) by lia.
+  assert (Ha : a = dx \/ (a = dx - w /\ dx = 1) \/ (a = dx + w /\ dx = -1)).
+  { subst a. destruct C as [C|[C|C]].
+    - right; right. replace (x + dx) with (w - 1 + (-1) * w) by lia.
+      rewrite Z_mod_plus_full, Z.mod_small by lia. lia.
+    - right; left. rewrite C, Z_mod_same_full. lia.
+    - left. rewrite Z.mod_small by lia. lia. }
+  clearbody a. rewrite !Z.gtb_ltb.
+  destruct (Z.ltb_spec 1 (Z.abs a)); destruct (Z.ltb_spec 0 a); lia.
+Qed.
+
+Lemma links_from_vector_wrap :
+  forall w h p l, 3 <= w -> 3 <= h -> 0 <= fst p < w -> 0 <= snd p < h ->
+    links_from_vector (chip_sub (torus_step w h p l) p) = Some (link_num l).
+Proof.
+  intros w h [x y] l Hw Hh Hx Hy. cbn [fst snd] in Hx, Hy.
+  unfold torus_step, wrap, mesh_step, chip_sub; cbn [fst snd].
+  unfold links_from_vector.
+  assert (Dx : -1 <= fst (link_vec l) <= 1) by (destruct l; cbn; lia).
+  assert (Dy : -1 <= snd (link_vec l) <= 1) by (destruct l; cbn; lia).
+  pose proof (wrapped_component w x (fst (link_vec l)) Hw Hx Dx) as Ex.
+  pose proof (wrapped_component h y (snd (link_vec l)) Hh Hy Dy) as Ey.
+  cbv zeta in Ex, Ey. rewrite Ex, Ey. destruct l; reflexivity.
+Qed.
+
+(* ================================================================================================
+   Remaining small facts *)
+Lemma to_xyz_to2d : forall xy, to2d (to_xyz xy) = xy.
+Proof. intros [x y]. unfold to_xyz, to2d. f_equal; lia. Qed.
+
+Lemma torus_length_representation :
+  forall s d s' d' w h, to2d s = to2d s' -> to2d d = to2d d' ->
+    shortest_torus_path_length s d w h = shortest_torus_path_length s' d' w h.
+Proof. intros s d s' d' w h H1 H2. rewrite !torus_length_tlen, !torus_delta_to2d, H1, H2. reflexivity. Qed.
+
+Lemma torus_length_error :
+  forall s d w h, torus_path_length_checked s d w h = OtherError <-> (w = 0 \/ h = 0).
+Proof.
+  intros. unfold torus_path_length_checked.
+  destruct (Z.eqb_spec w 0); destruct (Z.eqb_spec h 0); cbn [orb]; split; intros H;
+    try discriminate; try reflexivity; lia.
+Qed.
+
+(* ---- instances showing that the hypotheses are satisfiable and the statements not vacuous *)
+Definition ex_rint (lo hi : Z) : Z := hi.
+
+Lemma ex_randint_contract : randint_contract ex_rint.
+Proof. intros lo hi H. unfold ex_rint. lia. Qed.
+
+(* a 20 x 2 torus: the vector (5, 0, 0) is spiralled twice round the short axis *)
+Lemma ex_torus_path :
+  shortest_torus_path 0 0 0 0 ex_rint (0, 0, 0) (5, 0, 0) 20 2 = Ok (1, 0, -4) /\
+  shortest_torus_path_length (0, 0, 0) (5, 0, 0) 20 2 = 5 /\ randint_contract ex_rint.
+Proof. split; [reflexivity|]. split; [reflexivity|]. exact ex_randint_contract. Qed.
+
+Lemma ex_ldf :
+  longest_dimension_first 0 0 0 (1, 0, -4) (0, 0) (Some 20) (Some 2) =
+  Ok [(1, (1, 1)); (1, (2, 0)); (1, (3, 1)); (1, (4, 0)); (0, (5, 0))] /\
+  0 <= 0 < two53 /\ size_ok (Some 20) /\ size_ok (Some 2).
+Proof. split; [reflexivity|]. cbn. unfold two53. lia. Qed.
+
+Lemma lengths_independent_of_representation :
+  forall s d s' d', to2d s = to2d s' -> to2d d = to2d d' ->
+    shortest_mesh_path_length s d = shortest_mesh_path_length s' d' /\
+    forall w h, shortest_torus_path_length s d w h = shortest_torus_path_length s' d' w h.
+Proof.
+  intros s d s' d' H1 H2. split.
+  - now apply mesh_length_representation.
+  - intros w h. now apply torus_length_representation.
 Qed.
